@@ -304,10 +304,17 @@ def to_tla(prog):
             'plan': {i: [parse_outcome(o) for o in (r['plan'].get(i) or ['ok'])] for i in ids},
             'recreq': {i: int(r['recreq'].get(i, -1)) for i in ids},
         })
+    byid = node_by_id(prog)
+    rec_inside = set()
+    for n in prog['nodes']:
+        for p in n['params']:
+            if p['kind'] == 'rec':
+                anc = ancestors(prog, p['dest'], byid) | {p['dest']}
+                rec_inside |= {m for m in anc if m == p['start'] or p['start'] in ancestors(prog, m, byid)}
     depth = plain_depths(prog)
     slack = sum(x['delay'] * max(0, x['attempts'] - 1) for x in nodes)
     return {'name': prog.get('name', '?'), 'fp': fingerprint(prog), 'nodes': nodes, 'ids': ids,
             'input': prog['input'], 'output': prog['output'], 'runs': runs, 'order': order,
             'has_switch': 'switch' in kinds, 'has_oneof': 'oneof' in kinds, 'has_rec': 'rec' in kinds,
             'plain': depth is not None, 'depth': depth if depth is not None else {i: -1 for i in ids},
-            'slack': slack, 'amb': is_ambiguous(prog)}
+            'slack': slack, 'amb': is_ambiguous(prog), 'rec_inside': sorted(rec_inside) or ['-']}
